@@ -122,7 +122,7 @@ def reg_cases(rng, quick, pairs=True):
                         yield f"policy-lattice flags={fl:#04x} up_required={rup} uv_required={ruv}/{fmt}", regrun.policy_of(pd), reg, "dict", ("accept" if ok else "reject"), s
         if fmt in regsim.X5C_FORMATS:
             for name, f in regcat.CHAIN_FAULTS.items():
-                if fmt == "fido-u2f" and "intermediate" in name:
+                if fmt == "fido-u2f" and ("intermediate" in name or name in regcat.MULTI_CERT_FAULTS):
                     continue
                 s = regsim.RScn(fmt, "ES256-P256")
                 s.n_inter = 0 if fmt == "fido-u2f" else 1
